@@ -273,6 +273,56 @@ def work_shape(arg):
     return u
 
 
+# ---- RREL chain walking THROUGH a reference that holds a '+p:' proxy; the proxied object's own reference resolves a round later
+PROXY_GRAMMAR = r"""
+Model: (structs+=Struct | aliases+=Alias | refs+=Ref | holders+=Holder | insts+=Inst)*;
+Struct: 'struct' name=ID '{' vals*=Val '}';
+Val: 'val' name=ID;
+Alias: 'alias' name=ID '=' struct=[Struct];
+Ref: 'ref' holder=[Holder] '.' val=[Val|ID|.~holder.~inst.~type.vals];
+Holder: 'holder' name=ID '=' inst=[Inst|ID|%sinsts];
+Inst: 'inst' name=ID ':' type=[Struct|ID|aliases.~struct];
+"""
+PROXY_STMTS = ["struct S { val v }", "alias A = S", "ref h.v", "holder h = i", "inst i : A"]
+
+
+def run_proxy_chain(flag, order):
+    from textx import metamodel_from_str
+    from textx.exceptions import TextXSemanticError
+
+    if ("proxy", flag) not in _S:
+        _S[("proxy", flag)] = metamodel_from_str(PROXY_GRAMMAR % flag)
+    text = "\n".join(PROXY_STMTS[i] for i in order)
+    obs = {"rrel_of_Holder.inst": flag + "insts", "model": text}
+    try:
+        m = _S[("proxy", flag)].model_from_str(text)
+    except TextXSemanticError as e:
+        obs["outcome"] = "error"
+        obs["message"] = e.message[:100]
+        return False, obs
+    except BaseException as e:
+        obs["outcome"] = "other error %s: %s" % (type(e).__name__, str(e)[:100])
+        return False, obs
+    obs["outcome"] = "success"
+    v = m.refs[0].val
+    obs["val"] = getattr(v, "name", None)
+    return obs["val"] == "v" and v.parent is m.structs[0], obs
+
+
+def work_proxy(arg):
+    u = Unit()
+    for flag, order in arg:
+        cid = ["proxy-chain", flag, list(order)]
+        with watchdog(10):
+            ok, obs = run_proxy_chain(flag, order)
+        u.case(cid, nontrivial=True, sample=obs if list(order) == [2, 3, 4, 1, 0] else None)
+        u.count("proxy-chain outcome:" + obs["outcome"].split(" ")[0])
+        u.transitions += 1
+        if not ok:
+            u.fail(cid, {"proxy": flag, "order": list(order)}, sig="proxy-chain %r %s" % (flag, obs["outcome"][:25]), what=repr(obs)[:500])
+    return u
+
+
 def work_real(arg):
     cases = arg
     u = Unit()
@@ -334,6 +384,8 @@ def run(ctx):
     ctx.pmap(work, units)
     real = [(order, meth, edges) for order in itertools.permutations(range(5)) for meth in REAL_EXPECT for edges in real_deps()]
     ctx.pmap(work_real, [real[i:i + 200] for i in range(0, len(real), 200)])
+    pc = [(flag, order) for flag in ("", "+p:") for order in itertools.permutations(range(5))]
+    ctx.pmap(work_proxy, [pc[i:i + 40] for i in range(0, len(pc), 40)])
     shapes = [(sh, order, method, prov) for sh, (st, expect) in SHAPES.items() for order in itertools.permutations(range(4)) for method in expect
               for prov in ("ExtRelativeName", "RelativeName")]
     ctx.pmap(work_shape, [shapes[i:i + 48] for i in range(0, len(shapes), 48)])
@@ -351,6 +403,8 @@ def run(ctx):
 
 
 def replay(p):
+    if "proxy" in p:
+        return run_proxy_chain(p["proxy"], tuple(p["order"]))
     if "shape" in p:
         return run_shape(p["shape"], tuple(p["order"]), p["method"], p["provider"])
     if p.get("real"):
